@@ -199,6 +199,42 @@ class Fn:
         return ["let %s =%s" % (self.header, trail(ch) if False else "")] + bl
 
 
+class LocalFn:
+    """a function defined inside a block: let g (y:int) = <block>"""
+
+    def __init__(self, header, body):
+        self.header, self.body = header, body
+
+    def single(self):
+        return False
+
+    def lines(self, ch, ind):
+        same = ch.pick(2)                  # 1: a single-expression body on the `=` line
+        sub = ind + INDENTS[ch.pick(len(INDENTS))]
+        bl = self.body.lines(ch, sub)
+        if same == 1 and self.body.single():
+            return [ind + "let %s = %s" % (self.header, self.body.stmts[0].text)]
+        return [ind + "let %s =" % self.header] + bl
+
+
+class LamLet:
+    """let g = fun x -> <block>: the body on the same line (single expression) or as a deeper block on the next lines"""
+
+    def __init__(self, name, params, body):
+        self.name, self.params, self.body = name, params, body
+
+    def single(self):
+        return False
+
+    def lines(self, ch, ind):
+        same = ch.pick(2)
+        sub = ind + INDENTS[ch.pick(len(INDENTS))]
+        bl = self.body.lines(ch, sub)
+        if same == 1 and self.body.single():
+            return [ind + "let %s = fun %s -> %s" % (self.name, self.params, self.body.stmts[0].text)]
+        return [ind + "let %s = fun %s ->" % (self.name, self.params)] + bl
+
+
 class Raw:
     """top-level text rendered as is (package clause, imports, one-line declarations)"""
 
@@ -305,7 +341,25 @@ def docs():
             Let("(a, b)", E("(total o, pick true 1 2)")),
             E("frt.Printf1 \"%d\\n\" (a + b)"))),
     ])
-    return [d1, d2, d3]
+    d4 = Doc("machine", [
+        Raw("package main\n\nimport frt\nimport slice"),
+        UnionType("Cmd", ["Push of int", "Pop", "Add"]),
+        RecordType("St", ["Stack: []int", "Count: int"]),
+        Fn("step (s:St) (c:Cmd)", B(
+            LocalFn("bump (n:int)", B(Let("m", E("n + 1")), E("m"))),
+            LamLet("dbl", "x", B(Let("y", E("x * 2")), E("y"))),
+            Let("next", Match("c", [
+                ("Push n", B(E("slice.PushLast n s.Stack"))),
+                ("Pop", B(If("slice.IsEmpty s.Stack", B(E("s.Stack")), B(E("slice.PopLast s.Stack"))))),
+                ("Add", B(Let("k", E("slice.Length s.Stack")),
+                          If("k > 1", B(E("[dbl k]")), B(E("s.Stack")), elifs=[("k = 1", B(E("[bump k]")))])))])),
+            E("{Stack=next; Count=bump s.Count}"))),
+        Fn("main ()", B(
+            Let("s0", E("{Stack=[1]; Count=0}")),
+            Let("r", E("slice.Fold step s0 [Push 2; Add; Pop]")),
+            E("frt.Printf1 \"%d\\n\" r.Count"))),
+    ])
+    return [d1, d2, d3, d4]
 
 
 def dedent_pairs():
